@@ -290,7 +290,7 @@ class KaniRun:
         cov = {c["desc"]: c["status"] for c in checks if c["name"].endswith(".cover." + c["name"].rsplit(".", 1)[-1]) or ".cover." in c["name"]}
         vac_ok = True
         for cid in h.covers:
-            stc = [s for d, s in cov.items() if d.startswith(cid)]
+            stc = [s for d, s in cov.items() if d == cid]
             if not stc or not all(s == "SATISFIED" for s in stc):
                 vac_ok = False
         base["vacuity"] = {"witnesses": h.covers, "all_reachable": vac_ok}
